@@ -1,52 +1,23 @@
 #!/venv/bin/python
 """Regression over the confirmed seeded changes: each patch is applied to an in-memory copy of the sources it touches
 (nothing in /repo is modified) and the property's rules must report a violation.  usage: seed_regress.py [Cxx ...]"""
-import json, os, re, subprocess, sys, tempfile, shutil
+import os, sys
 sys.path.insert(0, "/verif")
 sys.setrecursionlimit(20000)
-from concurrent.futures import ProcessPoolExecutor
-
-SEEDS = "/verif/seeded"
-
-
-def patched_sources(patch: str, repo: str) -> dict:
-    files = re.findall(r"^\+\+\+ b/(\S+)", open(patch).read(), re.M)
-    tmp = tempfile.mkdtemp(prefix="seedreg_")
-    try:
-        for f in files:
-            os.makedirs(os.path.dirname(os.path.join(tmp, f)), exist_ok=True)
-            if os.path.exists(os.path.join(repo, f)):
-                shutil.copy(os.path.join(repo, f), os.path.join(tmp, f))
-        r = subprocess.run(["patch", "-p1", "-s", "-d", tmp, "-i", patch], capture_output=True, text=True)
-        if r.returncode != 0:
-            raise RuntimeError(f"patch failed: {r.stdout} {r.stderr}")
-        return {f: open(os.path.join(tmp, f)).read() for f in files if f.endswith(".py")}
-    finally:
-        shutil.rmtree(tmp, ignore_errors=True)
-
-
-def one(sid: str):
-    from framelint import core
-    import rules  # noqa
-    prop = sid.split("-")[0]
-    try:
-        ov = patched_sources(os.path.join(SEEDS, sid, "patch.diff"), "/repo")
-        ctx, err = core.run_property(prop, "quick", "/repo", overrides=ov)
-        known = {f"{k['property']}|{k['rule']}|{k['where']}|{k['construct']}" for k in core.load_known_findings().get("findings", [])}
-        new = [f for f in ctx.findings if f.key not in known]
-        return sid, sorted({f.rule for f in new}), err
-    except Exception as e:
-        return sid, [], f"internal {type(e).__name__}: {e}"
-
+from framelint import selftest, core
 
 if __name__ == "__main__":
     want = sys.argv[1:]
-    ids = sorted(d for d in os.listdir(SEEDS) if os.path.isdir(os.path.join(SEEDS, d)) and (not want or d.split("-")[0] in want))
-    bad = 0
-    with ProcessPoolExecutor(16) as ex:
-        for sid, rules_, err in ex.map(one, ids):
-            ok = bool(rules_)
-            bad += not ok
-            print(f"{sid}: {'caught by ' + ','.join(rules_) if ok else 'MISSED'}{' err=' + str(err)[:120] if err else ''}")
-    print(f"{len(ids)} seeded changes, {bad} missed")
+    props = sorted({d.split("-")[0] for d in os.listdir(os.path.join(core.VERIF_DIR, "seeded"))})
+    n = bad = 0
+    for p in props:
+        if want and p not in want:
+            continue
+        bctx, _ = core.run_property(p, "quick", "/repo")
+        r = selftest.run_seeds(p, "/repo", {f.key for f in bctx.findings})
+        for sid, what in r["seeded_changes"].items():
+            print(f"{sid}: {what}")
+            n += 1
+        bad += len(r["seeded_missed"])
+    print(f"{n} seeded changes, {bad} missed")
     sys.exit(1 if bad else 0)
